@@ -220,6 +220,7 @@ func runConcWithFault(sc ConcScenario, hf *HandlerFault, prefix []int) (res *Con
 	s := sched.New(prefix)
 	res.S = s
 	w := NewWorld(sc.Cfg)
+	defer w.Release()
 	// initial state, sequentially and without the scheduler
 	if len(sc.Init) > 0 {
 		s0 := w.Connect(0)
@@ -245,7 +246,7 @@ func runConcWithFault(sc ConcScenario, hf *HandlerFault, prefix []int) (res *Con
 		}
 	}
 	if sc.Cfg.Lock != "none" {
-		res.Mon = InstallLockMonitor(s, lockedSlot(sc.Cfg))
+		res.Mon = InstallLockMonitor(s, w.LockSlot())
 		defer res.Mon.Uninstall()
 	}
 	if !sc.NoBackendPoints {
